@@ -143,42 +143,6 @@ theorem totalTracks_of_stream {o : Oracle} {fuel op : Nat} {s s' : St} {io' : Io
 
 /-! ### a history of C ABI calls on one instance -/
 
-/-- one call through the C ABI -/
-inductive FfiCall where
-  | setParam (id v : Nat)                   -- `BrotliEncoderSetParameter`
-  | stream (op : Nat) (c : StreamCall)      -- `BrotliEncoderCompressStream` (`c.encTotal` is ignored: the instance's own total is used)
-  | take (size : Nat)                       -- `BrotliEncoderTakeOutput`
-  | hasMore | isFinished                    -- `BrotliEncoderHasMoreOutput` / `BrotliEncoderIsFinished` (state untouched)
-deriving Repr
-
-/-- what the caller has seen: every byte delivered so far (stored at `*next_out` by a stream call, or
-behind the pointer `TakeOutput` returned), and, for every stream call made with a non-null
-`total_out`, the pair (value read back from `*total_out`, number of bytes delivered up to and
-including that call) -/
-structure FfiSeen where
-  delivered : List Nat := []
-  cells : List (Nat × Nat) := []
-deriving Repr
-
-/-- the history, call by call; `none`: a Rust call unwound (or the model ran out of fuel) — what an
-instance does after `catch_panic` returned 0 is outside the contract, the history ends there -/
-def ffiRun (o : Oracle) (fuel : Nat) (mem : Mem) : List FfiCall → St → FfiSeen → Option (St × FfiSeen)
-  | [], s, seen => some (s, seen)
-  | .setParam id v :: cs, s, seen => ffiRun o fuel mem cs (ffiSetParameter s id v).1 seen
-  | .hasMore :: cs, s, seen => ffiRun o fuel mem cs s seen
-  | .isFinished :: cs, s, seen => ffiRun o fuel mem cs s seen
-  | .stream op c :: cs, s, seen =>
-    match BV.Stream.compressStream o fuel s op (inputSlice mem c.nextIn c.availIn) c.availOut with
-    | .ok _ =>
-      let r := ffiCompressStream o fuel s mem op c
-      let d := seen.delivered ++ r.2.2
-      ffiRun o fuel mem cs r.1 { delivered := d, cells := if c.totalOutPtr then seen.cells ++ [(r.2.1.totalOutCell, d.length)] else seen.cells }
-    | _ => none
-  | .take size :: cs, s, seen =>
-    match ffiTakeOutput s size with
-    | .ok (s', _, bytes) => ffiRun o fuel mem cs s' { seen with delivered := seen.delivered ++ bytes }
-    | _ => none
-
 /-- the history is within the contract: operation codes in range, every input pointer really
 addresses `available_in` bytes (pointer validity is the caller's obligation) -/
 def FfiHistOK (mem : Mem) : List FfiCall → Prop
